@@ -275,3 +275,131 @@ func verifC10Reobserve(ctx context.Context) {
 		zzverif.Reach("nothing-forwarded")
 	}
 }
+
+var verifTx2 = ethcommon.Hash{0: 0xAA, 31: 0x02}
+
+// C10, two pending messages: two logs (different transactions, heights and consistency levels, in the same block or
+// in two blocks) wait together; up to two head events; per head each transaction's receipt lookup is answered
+// independently (nothing / transient error / receipt with any status in the same or another block). Each message is
+// judged on its own head depth and its own receipt: the fate of one never decides the other, whatever the order in
+// which the watcher walks its pending set.
+func VerifC10_Two() { zzverif.Supervised(verifC10Two) }
+
+func verifC10Two(ctx context.Context) {
+	wait := zzverif.Len("waitForConfirmations", 1, 0) == 1
+	node := &verifNode{}
+	cctx, cancel := context.WithCancel(ctx)
+	defer cancel()
+	w := verifStartWatcher(cctx, node, wait)
+	if node.logSink == nil || node.headSink == nil {
+		zzverif.Assert(false, "watcher-subscribed")
+		return
+	}
+	var H [2]uint64
+	var cl [2]uint8
+	H[0], H[1] = zzverif.U64("H0"), zzverif.U64("H1")
+	cl[0], cl[1] = zzverif.U8("cl0"), zzverif.U8("cl1")
+	zzverif.Assume(H[0] < 1<<40)
+	zzverif.Assume(H[1] < 1<<40)
+	txs := [2]ethcommon.Hash{verifTx, verifTx2}
+	blocks := [2]ethcommon.Hash{verifBlockHash, verifBlockHash}
+	if zzverif.Len("oneBlock", 1, 0) == 0 {
+		blocks[1] = verifOtherBlock
+	}
+	for i := 0; i < 2; i++ {
+		ev := &ethabi.AbiLogMessagePublished{Sender: ethcommon.Address{19: 7}, TargetChainId: 2, Sequence: uint64(55 + i), Nonce: 1, Payload: []byte{1, 2}, ConsistencyLevel: cl[i],
+			Raw: ethtypes.Log{Address: verifCore, TxHash: txs[i], BlockHash: blocks[i], BlockNumber: H[i]}}
+		zzverif.MustNotBlock(func() { node.logSink <- ev; zzverif.Settle() })
+	}
+	w.pendingMu.Lock()
+	np0 := len(w.pending)
+	w.pendingMu.Unlock()
+	zzverif.Assert(np0 == 2, "both-logs-pending")
+	var forwarded [2]int
+	pending := [2]bool{true, true}
+	heads := zzverif.Len("heads", 1, 2)
+	for k := 0; k < heads; k++ {
+		number := zzverif.U64("head")
+		zzverif.Assume(number < 1<<41)
+		safe := zzverif.Len("safe", 0, 1) == 1
+		var kind [2]int
+		var status [2]uint64
+		var sameBlock [2]bool
+		var lookups [2]int
+		kind[0], kind[1] = zzverif.Len("receipt0", 0, 3, 4), zzverif.Len("receipt1", 0, 3, 4)
+		status[0], status[1] = zzverif.U64("status0"), zzverif.U64("status1")
+		sameBlock[0], sameBlock[1] = zzverif.Len("sameBlock0", 1, 0) == 1, zzverif.Len("sameBlock1", 1, 0) == 1
+		node.receipt = func(tx ethcommon.Hash) (*ethtypes.Receipt, error) {
+			i := 0
+			if tx == verifTx2 {
+				i = 1
+			}
+			lookups[i]++
+			switch kind[i] {
+			case 0:
+				return nil, nil
+			case 3:
+				return &ethtypes.Receipt{Status: 1, BlockHash: blocks[i]}, errors.New("connection reset")
+			}
+			bh := blocks[i]
+			if !sameBlock[i] {
+				bh = ethcommon.Hash{0: 0xB0, 31: 0x09}
+			}
+			return &ethtypes.Receipt{Status: status[i], BlockHash: bh, BlockNumber: new(big.Int).SetUint64(H[i])}, nil
+		}
+		zzverif.MustNotBlock(func() { node.headSink <- &NewBlock{Number: new(big.Int).SetUint64(number), Hash: ethcommon.Hash{1}, Safe: safe}; zzverif.Settle() })
+		var got [2]int
+		for len(w.msgChan) > 0 {
+			m := <-w.msgChan
+			i := 0
+			if m.Sequence == 56 {
+				i = 1
+			}
+			zzverif.Assert(m.Sequence == uint64(55+i) && m.TxHash == txs[i] && m.ConsistencyLevel == cl[i], "forwarded-message-is-its-log")
+			got[i]++
+		}
+		for i := 0; i < 2; i++ {
+			conf := uint64(0)
+			if wait && !safe {
+				conf = uint64(cl[i])
+			}
+			ready := H[i]+conf <= number
+			good := kind[i] == 4 && status[i] == 1 && sameBlock[i]
+			forwarded[i] += got[i]
+			zzverif.Assert(forwarded[i] <= 1, "forwarded-at-most-once")
+			if got[i] > 0 {
+				zzverif.Reach("forwarded")
+				zzverif.Assert(pending[i], "forwarded-only-while-pending")
+				zzverif.Assert(ready, "forwarded-only-when-the-seen-head-is-deep-enough")
+				zzverif.Assert(good && lookups[i] > 0, "forwarded-only-when-the-receipt-still-confirms-it")
+				pending[i] = false
+			} else if pending[i] {
+				if ready && good {
+					zzverif.Assert(false, "ready-and-confirmed-message-is-forwarded-whatever-happens-to-the-other")
+				}
+				if ready && (kind[i] == 0 || (kind[i] == 4 && (status[i] != 1 || !sameBlock[i]))) {
+					pending[i] = false
+					zzverif.Reach("dropped")
+				}
+				if H[i]+conf+60 <= number && !(ready && good) {
+					pending[i] = false
+				}
+			}
+		}
+		w.pendingMu.Lock()
+		np := len(w.pending)
+		w.pendingMu.Unlock()
+		want := 0
+		if pending[0] {
+			want++
+		}
+		if pending[1] {
+			want++
+		}
+		if want == 2 {
+			zzverif.Reach("both-still-pending")
+		}
+		zzverif.Assert(np == want, "exactly-the-unsettled-messages-stay-pending")
+	}
+	zzverif.Reach("end")
+}
